@@ -6,5 +6,5 @@ for id in "$@"; do
   start=$(date +%s)
   out=$(VERIF_SEED=$seed ./check $id --tier $tier 2>&1); rc=$?
   end=$(date +%s)
-  echo "$id seed=$seed rc=$rc $((end-start))s | $(echo "$out" | grep -v '^WARNING\|resource_tracker\|warnings.warn' | tail -3 | tr '\n' ' ' | cut -c1-300)"
+  echo "$id seed=$seed rc=$rc $((end-start))s | $(echo "$out" | grep ' tier=' | tail -1) | $(echo "$out" | grep -v '^WARNING\|resource_tracker\|warnings.warn\| tier=' | tail -3 | tr '\n' ' ' | cut -c1-300)"
 done
